@@ -5,14 +5,25 @@ From Blue Require Import Lsm.Model Lsm.LoadProofs Lsm.Ordered Crash.Model Crash.
 Import ListNotations.
 Open Scope N_scope.
 From Blue Require Import Crash.Props_C02.
-Check C02_crash_safe : forall c, reach c -> c_v c = None -> exists s', run (fst (fst (open_prog (c_fs c)))) (c_fs c) = (s', None) /\ snd (open_prog (c_fs c)) = true /\ Run s' (snd (fst (open_prog (c_fs c)))) /\ exists ch, sub ch (c_fly c) /\ forall e, In e (all_entries (snd (fst (open_prog (c_fs c))))) <-> In e (concat (c_ack c) ++ concat ch).
+Check C02_crash_safe : forall c, reach c -> c_v c = None -> exists s', run (fst (fst (open_prog (c_fs c)))) (c_fs c) = (s', None) /\ snd (open_prog (c_fs c)) = true /\ Run s' (snd (fst (open_prog (c_fs c)))) /\ exists W, sel (c_hist c) W /\ explains W (all_entries (snd (fst (open_prog (c_fs c))))).
+Check C02_acknowledged_kept : forall h W, sel h W -> forall b, In (true, b) h -> In b W.
+Check C02_nothing_invented : forall h W, sel h W -> forall b, In b W -> exists a, In (a, b) h.
+Check C02_merge_accepted : forall v gc ins outs, ts_unique (all_entries v) -> incl ins (v_files v) -> (forall e, In e (concat outs) <-> In e (concat ins)) -> accepted v (OpCompact gc ins outs).
+Check C02_acceptedb_sound : forall v o, acceptedb v o = true -> accepted v o.
 Check C02_crash_models_covered : forall s, cut s (image_a s) /\ cut s (image_b s).
-Check C02_open_store_contents : forall c v, reach c -> c_v c = Some v -> Run (c_fs c) v /\ exists ch, sub ch (c_fly c) /\ forall e, In e (all_entries v) <-> In e (concat (c_ack c) ++ concat ch).
+Check C02_open_store_contents : forall c v, reach c -> c_v c = Some v -> Run (c_fs c) v /\ exists W, sel (c_hist c) W /\ explains W (all_entries v).
 Check C02_sequence_numbers_fresh : forall c v, reach c -> c_v c = Some v -> forall e, In e (all_entries v) -> ets e < v_seq v + 1.
 Check C02_recovery_returns_image : forall c, reach c -> c_v c = None -> forall e, In e (disk_entries (c_fs c)) <-> In e (all_entries (snd (fst (open_prog (c_fs c))))).
 Check C02_reads_newest_recovered_outside_known : forall (st : store) (E : list entry) k, wf_version (ver st) -> Ordered st -> (forall e, In e (Lsm.Ordered.all_entries st) <-> In e E) -> match load st k (seq st) with | Some e => In e E /\ ek e = k /\ (forall e', In e' E -> ek e' = k -> ets e' <= seq st -> ets e' <= ets e) | None => forall e', In e' E -> ek e' = k -> seq st < ets e' end.
 Check C02_reads_newest_recovered_refuted : exists (st : store) k e e', wf_version (ver st) /\ load st k (seq st) = Some e /\ In e' (Lsm.Ordered.all_entries st) /\ ek e' = k /\ ets e' <= seq st /\ ets e < ets e'.
 Check C02_fault_surfaced : forall p k s, run p s = (fst (run p s), None) -> (k < length p)%nat -> ~ dropped (snd (nth k p (CSync NMani, Must))) -> snd (run_prog p (Some k) O s None) <> None.
 Check C02_only_trash_renames_dropped : forall c m, dropped m -> (forall v s o, In (c, m) (fst (op_prog v s o)) -> exists x, c = CRename (NSst x) (NTrashSst x)) /\ (forall s, In (c, m) (fst (fst (open_prog s))) -> exists x, c = CRename (NSst x) (NTrashSst x)).
-Check C02_fault_leaves_recoverable : forall s v o f k, Run s v -> accepted v o -> Safe (fst (run_prog (firstn k (fst (op_prog v s o))) f O s None)) (all_entries v) (op_batch v o).
-Check C02_recovery_fault_leaves_recoverable : forall c f k, reach c -> c_v c = None -> exists ch, sub ch (c_fly c) /\ Safe (fst (run_prog (firstn k (fst (fst (open_prog (c_fs c))))) f O (c_fs c) None)) (concat (c_ack c) ++ concat ch) None.
+Check C02_fault_leaves_recoverable : forall s v o f k, Run s v -> op_fs_ok v o -> Safe (fst (run_prog (firstn k (fst (op_prog v s o))) f O s None)) (op_base v o) (op_pend v o).
+Check C02_recovery_fault_leaves_recoverable : forall c f k, reach c -> c_v c = None -> exists E W, sel (c_hist c) W /\ explains W E /\ Safe (fst (run_prog (firstn k (fst (fst (open_prog (c_fs c))))) f O (c_fs c) None)) E None.
+Check C02_recoverable_image_opens : forall s E, Good s E -> exists s', run (fst (fst (open_prog s))) s = (s', None) /\ snd (open_prog s) = true /\ Run s' (snd (fst (open_prog s))) /\ forall e, In e (all_entries (snd (fst (open_prog s)))) <-> In e E.
+Check C02_safe_state_recovers : forall s E P img, Safe s E P -> cut s img -> exists E', (E' = E \/ exists p, P = Some p /\ E' = E ++ p) /\ exists s', run (fst (fst (open_prog img))) img = (s', None) /\ snd (open_prog img) = true /\ Run s' (snd (fst (open_prog img))) /\ forall e, In e (all_entries (snd (fst (open_prog img)))) <-> In e E'.
+Check C02_error_at_log_write_is_step : forall c v b, reach c -> c_v c = Some v -> accepted v (OpWrite b) -> reach (mkCfg (c_fs c) (Some (fault_next v (OpWrite b))) (hist_next v (OpWrite b) false (c_hist c))).
+Check C02_error_at_flush_start_is_step : forall c v, reach c -> c_v c = Some v -> reach (mkCfg (c_fs c) (Some v) (c_hist c)).
+Check C02_same_relb_sound : forall s s', same_relb s s' = true -> same_rel s s'.
+Check C02_driver_error_state : forall x o, x_v (xnext_err x o) = fault_next (x_v x) o.
+Check C02_driver_programs : forall x s o p flag, xop_prog x s o = Some (p, flag) -> (p, flag) = op_prog (x_v x) s o \/ (p, flag) = ([], false).
